@@ -286,6 +286,11 @@ def r3(ck, F):
                     problems.append("a path that is neither above the max level nor ignored returns %s instead of asking the dispatcher" % r)
                 else:
                     asked += 1
+                    # ... and, unless the list of ignored prefixes is known to be empty, only after the list was gone through
+                    empties = [v for t, v in conds if t.startswith("is_empty(") and "ignore_crates" in t]
+                    scanned = any(("ignore_crates" in t and ("next(" in t or "::any" in t or t.startswith("any("))) for t, v in conds) or bool(ignored)
+                    if not (empties and empties[0]) and not scanned:
+                        problems.append("the dispatcher is asked although the ignored prefixes may be non-empty and were never compared with the record's target")
             if not above:
                 problems.append("a path does not compare the record's level with LevelFilter::current()")
         cl = None
